@@ -200,7 +200,7 @@ def nontrivial(s, lines):
 
 
 def histogram(s, lines):
-    ks = ["start_%s" % ["newKeyFile", "newIniFile", "with_options", "parsed", "merged", "readDirs"][s.meta.get("start", 0)]] if "start" in s.meta else ["corpus"]
+    ks = ["start_%s" % ["newKeyFile", "newIniFile", "with_options", "parsed", "merged", "readDirs", "read_with_option"][s.meta.get("start", 0)]] if "start" in s.meta else ["corpus"]
     nset = sum(1 for l in lines if l == "set E0")
     ks.append("growth_beyond_8" if nset > 8 else "within_8")
     for l in lines:
